@@ -7,9 +7,12 @@ emit(doc, rng=None)   -> YAML text
 """
 import copy
 
-OS_POOL = ["linux", "windows", "bsd", "macos", "win", "linux64"]
-SRV_POOL = ["ssh", "ftp", "http", "samba", "smtp", "rdp", "https", "sshd"]
-PROC_POOL = ["tomcat", "daclsvc", "schtask", "cron", "crond"]
+OS_POOL = ["linux", "windows", "bsd", "macos", "win", "linux64", "Linux",
+           "os x"]
+SRV_POOL = ["ssh", "ftp", "http", "samba", "smtp", "rdp", "https", "sshd",
+            "SSH", "web server", "ssh-2", "sql_db"]
+PROC_POOL = ["tomcat", "daclsvc", "schtask", "cron", "crond", "Tomcat",
+             "task scheduler"]
 
 SECTION_ORDER = ["subnets", "topology", "sensitive_hosts", "os", "services",
                  "processes", "exploits", "privilege_escalation",
@@ -132,7 +135,8 @@ def gen_doc(rng, shape=None, max_subnets=5, max_hosts=4, n_public=None,
     k = max(1, min(k, len(addrs)))
     sens = rng.sample(addrs, k)
     doc["sensitive_hosts"] = {
-        A(*a): rng.choice([100, 10, 1, 50, 0.5, 2.5, 1000]) for a in sens}
+        A(*a): rng.choice([100, 10, 1, 50, 0.5, 2.5, 1000, 100.0, 1.0,
+                           20000000]) for a in sens}
     sens_value = {reader_addr(k): v
                   for k, v in doc["sensitive_hosts"].items()}
     if rng.random() < 0.1:
@@ -151,7 +155,7 @@ def gen_doc(rng, shape=None, max_subnets=5, max_hosts=4, n_public=None,
         if cost_domain == "ge1":
             cost = rng.choice([1, 1, 2, 3, 1.5])
         else:
-            cost = rng.choice([1, 1, 2, 3, 0.5, 1.5, 0.1])
+            cost = rng.choice([1, 1, 2, 3, 0.5, 1.5, 0.1, 1.0, 2.0])
         ename = f"e{i}_{srv}"
         if rng.random() < 0.03:
             # name coincidences with the built-in actions
